@@ -87,14 +87,17 @@ InDomain(f) == WellFormed(f) /\ MinusOnTerms(f)
 (* G(e,f) GroupSpecificTerm, M(ct,gt) Model with its ordered lists, X any exception.            *)
 (* IOp transcribes the operator overloads class by class (Python's NotImplemented / missing     *)
 (* method protocol ends in TypeError = X because no reflected operator is defined).             *)
-(* sm = TRUE evaluates the same algorithm with a:b and b:a identified (components kept in a     *)
-(* canonical order); it is used only to delimit the inputs on which term identity matters.      *)
+(* sm = TRUE evaluates the algorithm with a:b and b:a identified (components kept in a          *)
+(* canonical order): the repaired Term.__eq__/__hash__ (TermBySet = TRUE).  sm = FALSE is the    *)
+(* pinned tree, where a term was the ordered list of its components; inputs on which the two   *)
+(* disagree (OrderSensitive) were outside the judged domain before the repair.                  *)
 CONSTANTS AtomOrder,    \* all atoms, as a sequence (canonical order for sm)
           HashBad,      \* atoms whose hash raises on the pinned tree (calls with literal arguments)
           HashBroken,   \* TRUE: pinned LazyValue.__hash__
           DivByTerms,   \* TRUE: repaired Model / Model (distributes over the terms of the right operand)
           MulShortcut,  \* TRUE: Model * Model returns self when both operands are equal (KF_C02_mul_equal_models)
-          CtorDedup     \* TRUE: repaired Model(*terms) keeps each term once
+          CtorDedup,    \* TRUE: repaired Model(*terms) keeps each term once
+          TermBySet     \* TRUE: repaired Term.__eq__ / __hash__ compare the components as a set
 
 I == [cls |-> "I"]
 N == [cls |-> "N"]
@@ -287,7 +290,7 @@ ImplDen(v) ==
           groups |-> {<<TAbs(m.gt[k].e), TAbs(m.gt[k].f)>> : k \in 1..Len(m.gt)}]
 SameDen(i, d) == ~i.exc /\ ~i.neg /\ i.icpt = d.icpt /\ i.terms = d.terms /\ i.groups = d.groups
 \* term identity matters for this input: the algorithm answers differently once a:b = b:a
-OrderSensitive(f) == ImplDen(IEval(f, FALSE)) # ImplDen(IEval(f, TRUE))
+OrderSensitive(f) == ImplDen(IEval(f, TermBySet)) # ImplDen(IEval(f, TRUE))
 (* ------------------------------ named deviation classes ------------------ *)
 \* KF_C02_late_literal: an intercept literal that is not the first additive item of an effect
 \* side -- '(x + 0 | g)', '(x - 1 | g)', '(x + 1 | g)', '(a + b + 0 | g)' (see DESIGN.md section 5)
@@ -302,7 +305,7 @@ LateLiteral(e) ==
 RECURSIVE MulEqualModels(_)
 MulEqualModels(e) ==
   CASE e[1] = "op" ->
-         (e[2] = "*" /\ LET l == IEval(e[3], FALSE) r == IEval(e[4], FALSE) IN
+         (e[2] = "*" /\ LET l == IEval(e[3], TermBySet) r == IEval(e[4], TermBySet) IN
                           l.cls = "M" /\ r.cls = "M" /\ MEq(l, r) /\ Cardinality(TermSet(l)) >= 2)
          \/ MulEqualModels(e[3]) \/ MulEqualModels(e[4])
     [] e[1] = "pow" -> MulEqualModels(e[2])
